@@ -326,3 +326,7 @@ Definition during_ok' (cfg : bytes) (before l : list bytes) : bool :=
   end.
 Definition tmp_ok (cfg : bytes) (before : list bytes) (during : list (list bytes)) (after : list bytes) : bool :=
   forallb (during_ok' cfg before) during && same_set before after.
+(* files the process holds open under the scratch root at a snapshot (also already unlinked ones, which no listing
+   shows): each must live under the configured directory *)
+Definition under_cfg (cfg p : bytes) : bool := match strip_prefix (cfg ++ [47]) p with Some _ => true | None => false end.
+Definition tmp_open_ok (cfg : bytes) (opens : list (list bytes)) : bool := forallb (forallb (under_cfg cfg)) opens.
